@@ -20,4 +20,20 @@ ITEMS = [
                    '(builtin_simple(*ty) && builtin_simple(type_of_spec(*arg))) ==> r == Ok::<bool, NErr>(type_accepts(*ty, type_of_spec(*arg)))'),
                   ('struct_type_by_id', '(*ty is Struct && *arg is Instance) ==> r == Ok::<bool, NErr>(ty->Struct_0.id == arg->Instance_0.id)')],
          props=['C12']),
+    # struct construction: the arguments followed by the defaults of the remaining fields; a missing field without default raises
+    Item(id='call_type', source='src/core.rs', locator='fn call_type',
+         ensures=[
+             ('instance_of_that_struct_with_every_field', '(ty is Struct && r is Ok) ==> (r->Ok_0 is Instance && r->Ok_0->Instance_0 == ty->Struct_0 && '
+              'r->Ok_0->Instance_1@.len() >= ty->Struct_0.fields@.len())'),
+             ('arguments_first_then_defaults', '(ty is Struct && r is Ok) ==> (forall|i: int| 0 <= i < r->Ok_0->Instance_1@.len() ==> '
+              '(#[trigger] r->Ok_0->Instance_1@[i]) == (if i < args@.len() { args@[i] } else { ty->Struct_0.fields@[i].1->Some_0 }))'),
+             ('ok_iff_the_missing_fields_have_defaults', 'ty is Struct ==> (r is Ok <==> struct_fill_ok(ty->Struct_0.fields@, args@.len() as int))'),
+             ('a_missing_field_is_an_argument_error', '(ty is Struct && r is Err) ==> err_class(r->Err_0) == ErrClass::Argument'),
+         ],
+         attrs=['#[verifier::loop_isolation(false)]'],
+         hints=[(r'args\.reserve_exact', 'let ghost args0 = args@;', 'before')],
+         loops={1: dict(invariant=[('filled_so_far', 'args@.len() >= args0.len() && (forall|i: int| 0 <= i < args@.len() ==> (#[trigger] args@[i]) == (if i < args0.len() { args0[i] } else { s.fields@[i].1->Some_0 })) && '
+                                    '(forall|i: int| args0.len() <= i < args@.len() && i < s.fields@.len() ==> (#[trigger] s.fields@[i]).1 is Some)')],
+                        decreases='s.fields@.len() - args@.len()')},
+         props=['C12']),
 ]
